@@ -99,6 +99,17 @@ def make_trees(r, tier):
             trees.append(t)
     trees += shape_twins(r, 6 if tier == "quick" else 60)
     trees += bicyclic_roots(r, 6 if tier == "quick" else 40)
+    # two branches reaching the parent through the two free OH groups of one phosphate (phosphodiester bridges), alone
+    # and next to a branch on an ordinary position, on root and inner residues
+    for _ in range(4 if tier == "quick" else 30):
+        par, pp = r.choice([("Glc6P", 6), ("Man6P", 6), ("Gal3P", 3), ("GlcNAc6P", 6), ("Gal6P", 6)])
+        T.RES.setdefault(par, (1, (2, 3, 4, 6), (), "phospho"))
+        a_, b_ = r.sample(["Man", "Gal", "Glc", "Fuc", "Xyl", "GlcNAc"], 2)
+        kids = [(r.choice("ab"), 1, pp, T.Node(a_)), (r.choice("ab"), 1, pp, T.Node(b_, [("a", 1, 3, T.Node("Man"))] if r.random() < 0.4 else []))]
+        if r.random() < 0.5:
+            kids.append((r.choice("ab"), 1, 4 if pp != 4 else 2, T.Node("Xyl")))
+        node = T.Node(par, kids)
+        trees.append(node if r.random() < 0.5 else T.Node("Glc", [("b", 1, 4, node)]))
     # four substituents on a non-root and on the root residue, nested
     four = T.Node("Glc", [("b", 1, 4, T.Node("Man", [("a", 1, 2, T.Node("Gal")), ("a", 1, 3, T.Node("Fuc")), ("b", 1, 4, T.Node("Xyl")), ("a", 2, 6, T.Node("Neu5Ac"))]))])
     trees.append(four)
@@ -202,7 +213,7 @@ def run(tier):
         report.fail({"site": "proof", "kind": "obligation-broken"},
                     {"no_failing_input": True, "what_no_longer_checks": broken, "theorems": names_thm})
     report.assumptions = ["molecule identity is Iso.same_molecule (constitution + tetrahedral parity + cis/trans geometry of marked double bonds)"]
-    extra = {"rule": "trees with at least one branching residue (up to four substituents, on root and non-root residues, ketose and N-linked parents); for each, all permutations of the substituents of one residue at a time (which includes the choice of the unbracketed main chain); distinct pairs of writings",
+    extra = {"rule": "trees with at least one branching residue (up to four substituents, on root and non-root residues, ketose and N-linked parents, two branches through one phosphate); for each, all permutations of the substituents of one residue at a time (which includes the choice of the unbracketed main chain); distinct pairs of writings",
              "pairs": n_pairs, "pairs_full_false_partial": n_partial, "print_assumptions": res.assumptions.get(f"Props/{PROP}.v", "").strip().splitlines()[-3:],
              "partial": "whole-tree permutation invariance is decided per input; proved: atom-level commutation of two condensations"}
     return report.finish("proof", ob, dis, names_thm, trusted=C.TRUSTED, extra=extra)
